@@ -628,7 +628,16 @@ func ingRtpPackets(sc *ingScenario) (pk [][]byte, trk []string) {
 		}
 		// marker: last packet of the frame
 		last := i+1 == len(sc.Plan) || sc.Plan[i+1].F != p.F
-		pk = append(pk, proj.RtpWrap(last, pt, seq[f.Trk]&0xffff, uint32(ingTs(f.Ts)), ssrc, pl))
+		b := proj.RtpWrap(last, pt, seq[f.Trk]&0xffff, uint32(ingTs(f.Ts)), ssrc, pl)
+		if sc.Sc%4 == 1 && len(b) >= 12 {
+			// RTP padding (RFC 3550 5.1): P bit, k-1 zero octets and the count k behind the payload - senders that
+			// encrypt or align their packets add it; it is no part of the payload
+			k := 1 + (seq[f.Trk]+i)%4
+			b[0] |= 0x20
+			b = append(b, make([]byte, k-1)...)
+			b = append(b, byte(k))
+		}
+		pk = append(pk, b)
 		trk = append(trk, f.Trk)
 		seq[f.Trk]++
 	}
@@ -948,8 +957,15 @@ func ingPsRun(sc *ingScenario, g *logic.Group, stream string) (bad []string, npk
 		trk[i] = "all"
 	}
 	sc.Ptrk = "all"
+	// as the TCP reader of gb28181.PubSession does: every packet is read into the same buffer, which holds the next
+	// packet as soon as the call has returned - a packet waiting for its turn in the reorder list must be a copy
+	var rbuf []byte
 	for _, i := range ingArrival(sc, trk) {
-		_ = u.FeedRtpPacket(pk[i])
+		rbuf = append(rbuf[:0], pk[i]...)
+		_ = u.FeedRtpPacket(rbuf)
+		for j := range rbuf {
+			rbuf[j] ^= 0x5a
+		}
 	}
 	return nil, len(pk)
 }
